@@ -1,4 +1,4 @@
-CONSTANTS MaxTx = 2  MaxH = 9  Level = 0
+CONSTANTS DispModes = {FALSE}  MaxTx = 2  MaxH = 9  Level = 0
 INIT Init
 NEXT NextCover
 VIEW view
